@@ -5,7 +5,7 @@
    mantissa byte mState[0] are untouched.  Hence a stored key keeps the short hash Bucket::Find compares against. *)
 From Coq Require Import ZArith Bool List Lia.
 From MomoCommon Require Import GenPrelude.
-From C13 Require Gen_Open2N2 Gen_Open2N2_ops Open2N2_Proofs BucketOps.
+From C13 Require Gen_Open2N2 Gen_Open2N2_ops Gen_OpenN1 Gen_OpenN1_ops Open2N2_Proofs OpenN1_Proofs BucketOps.
 Local Open Scope Z_scope.
 Ltac Zify.zify_post_hook ::= Z.div_mod_to_equations.
 
@@ -95,3 +95,98 @@ Proof.
   eexists. split; [vm_compute; reflexivity|]. vm_compute. reflexivity.
 Qed.
 End O2F.
+
+(* ------------------------------------------------------------------ OpenN1<maxCount, reverse> / Open8
+   Here the state byte lives in the slot of the LAST item (it is overwritten by that item's short hash when the bucket
+   becomes full), so the frame is stated over item numbers: items 0 .. count-1 live at pos 0 .. pos (count-1). *)
+Module N1F.
+Import Gen_OpenN1_ops BucketOps.N1.
+Section MC.
+Variable rv : bool.
+Variable mc : Z.
+Hypothesis Hmc : 1 <= mc <= 7.
+
+Ltac split_upd := unfold upd; repeat match goal with |- context [Z.eqb ?a ?b] => destruct (Z.eqb_spec a b) end; cbv beta iota.
+
+Theorem add_frame hc x1 x2 ni d : good rv mc d -> 0 <= cnt rv mc d < mc ->
+  let d' := addP rv mc (hc, x1, x2, ni) d in
+  d' (pos rv mc (cnt rv mc d)) = ptCalcShortHash (wrapU 64 hc) /\
+  (forall i, 0 <= i < cnt rv mc d -> d' (pos rv mc i) = d (pos rv mc i)) /\
+  (forall j, j < 0 \/ mc <= j -> d' j = d j).
+Proof.
+  intros Hg Hc. pose proof Hg as (He & H0).
+  pose proof (cnt_val rv mc Hmc d Hg) as Hcv. pose proof (sp_range rv mc Hmc) as Hsp.
+  pose proof (pos_range rv mc (cnt rv mc d) Hc) as Hpr.
+  pose proof (pos_sp rv mc (cnt rv mc d) Hc) as Hps.
+  unfold addP, AddCrt. fold (cnt rv mc d).
+  replace (Z.ltb (cnt rv mc d) mc) with true by (symmetry; apply Z.ltb_lt; lia).
+  set (shv := ptCalcShortHash (wrapU 64 hc)) in *.
+  cbv beta iota zeta delta [emptyShortHash]. rewrite !(sp_gen rv mc Hmc). rewrite (pos_gen rv mc Hmc (cnt rv mc d)) by lia.
+  rewrite (w64 (cnt rv mc d + 1)) by (change (2 ^ 32) with 4294967296; lia).
+  set (c := cnt rv mc d) in *. clearbody c shv.
+  destruct (Z.ltb_spec (c + 1) mc) as [Hnf|Hf].
+  - split; [|split].
+    + rewrite upd_other by lia. apply upd_same.
+    + intros i Hi. pose proof (pos_sp rv mc i ltac:(lia)) as Hpi.
+      assert (Hne : pos rv mc i <> pos rv mc c) by (unfold pos; destruct rv; lia).
+      rewrite upd_other by lia. apply upd_other. exact Hne.
+    + intros j Hj. rewrite !upd_other by lia. reflexivity.
+  - split; [|split].
+    + apply upd_same.
+    + intros i Hi. assert (Hne : pos rv mc i <> pos rv mc c) by (unfold pos; destruct rv; lia).
+      apply upd_other. exact Hne.
+    + intros j Hj. rewrite upd_other by lia. reflexivity.
+Qed.
+
+Lemma rem_shape idx0 x1 x2 x3 d d' : good rv mc d -> 0 < cnt rv mc d <= mc -> remP rv mc (idx0, x1, x2, x3) d = Some d' ->
+  0 <= wrapU 64 idx0 < cnt rv mc d /\
+  exists v, d' = upd (upd (upd d (pos rv mc (wrapU 64 idx0)) (d (pos rv mc (cnt rv mc d - 1)))) (pos rv mc (cnt rv mc d - 1)) 248) (sp rv mc) v.
+Proof.
+  intros Hg Hc Hr. pose proof Hg as (He & H0).
+  unfold remP, Remove in Hr. fold (cnt rv mc d) in Hr.
+  pose proof (wrapU_range 64 idx0 ltac:(lia)) as Hidx. set (idx := wrapU 64 idx0) in *.
+  destruct (Z.ltb_spec idx (cnt rv mc d)) as [Hlt|]; [|discriminate].
+  cbv beta iota zeta delta [emptyShortHash] in Hr. rewrite !(sp_gen rv mc Hmc) in Hr.
+  rewrite (w64 (cnt rv mc d - 1)) in Hr by (change (2 ^ 32) with 4294967296; lia).
+  rewrite (pos_gen rv mc Hmc idx) in Hr by lia. rewrite !(pos_gen rv mc Hmc (cnt rv mc d - 1)) in Hr by lia.
+  split; [lia|].
+  destruct (Z.ltb (cnt rv mc d) mc);
+    match type of Hr with Some (upd _ _ ?v) = _ => exists v end; congruence.
+Qed.
+
+Theorem rem_frame idx0 x1 x2 x3 d d' : good rv mc d -> 0 < cnt rv mc d <= mc -> remP rv mc (idx0, x1, x2, x3) d = Some d' ->
+  let idx := wrapU 64 idx0 in
+  0 <= idx < cnt rv mc d /\
+  (idx < cnt rv mc d - 1 -> d' (pos rv mc idx) = d (pos rv mc (cnt rv mc d - 1))) /\
+  (forall i, 0 <= i < cnt rv mc d - 1 -> i <> idx -> d' (pos rv mc i) = d (pos rv mc i)) /\
+  (forall j, j < 0 \/ mc <= j -> d' j = d j).
+Proof.
+  intros Hg Hc Hr. destruct (rem_shape idx0 x1 x2 x3 d d' Hg Hc Hr) as (Hidx & v & Hd'). clear Hr.
+  cbv zeta. generalize dependent (wrapU 64 idx0). intros idx Hidx Hd'. subst d'.
+  pose proof (sp_range rv mc Hmc) as Hsp.
+  generalize dependent (cnt rv mc d). intros c Hc Hidx.
+  assert (Hinj : forall i j, pos rv mc i = pos rv mc j <-> i = j) by (intros i j; unfold pos; destruct rv; lia).
+  pose proof (pos_range rv mc idx ltac:(lia)) as Hpi. pose proof (pos_range rv mc (c - 1) ltac:(lia)) as Hpl.
+  pose proof (pos_sp rv mc idx ltac:(lia)) as Hsi. pose proof (pos_sp rv mc (c - 1) ltac:(lia)) as Hsl.
+  split; [lia|]. split; [|split].
+  - intros Hlast. pose proof (Hinj idx (c - 1)) as Hi1.
+    rewrite upd_other by lia. rewrite upd_other by lia. apply upd_same.
+  - intros i Hi Hne. pose proof (pos_sp rv mc i ltac:(lia)) as Hpsi. pose proof (pos_range rv mc i ltac:(lia)) as Hpri.
+    pose proof (Hinj i (c - 1)) as Hi1. pose proof (Hinj i idx) as Hi2.
+    rewrite upd_other by lia. rewrite upd_other by lia. apply upd_other. lia.
+  - intros j Hj. rewrite !upd_other by lia. reflexivity.
+Qed.
+End MC.
+
+(* premises are satisfiable: Open8 (= OpenN1<7, false>): two AddCrt on the empty bucket, then Remove of item 0 *)
+Example frame_witness :
+  let d0 := pvSetEmpty 7 (fun _ => 0) in
+  let d1 := addP false 7 (12345, 0, 0, 0) d0 in let d2 := addP false 7 (2 ^ 63 + 77, 0, 0, 0) d1 in
+  good false 7 d0 /\ cnt false 7 d0 = 0 /\ cnt false 7 d2 = 2 /\
+  exists d3, remP false 7 (0, 0, 0, 0) d2 = Some d3 /\ d3 (pos false 7 0) = d2 (pos false 7 1) /\ cnt false 7 d3 = 1.
+Proof.
+  cbv zeta. pose proof (empty_good false 7 ltac:(lia) (fun _ => 0)) as (Hg & Hc & _).
+  split; [exact Hg|]. split; [exact Hc|]. split; [vm_compute; reflexivity|].
+  eexists. split; [vm_compute; reflexivity|]. split; vm_compute; reflexivity.
+Qed.
+End N1F.
